@@ -115,7 +115,7 @@ func c09PerIterationFresh(c *Ctx, ge *GuardEngine) {
 		if !c.P.InModule(fn) || fn.Synthetic != "" || fn.Pkg == nil || relPkg(fn.Pkg.Pkg) != "types" {
 			continue
 		}
-		if fn.Name() != "DeepCopy" && fn.Name() != "Copy" && fn.Name() != "deepCopy" {
+		if ln := strings.ToLower(fn.Name()); !strings.Contains(ln, "copy") && !strings.Contains(ln, "clone") {
 			continue
 		}
 		fi := ge.info(fn)
@@ -645,14 +645,19 @@ type freshStore struct {
 
 // copyFreshness collects, for the local that a copy function returns, the paths assigned fresh memory.
 func (ge *GuardEngine) copyFreshness(fn *ssa.Function, memo map[*ssa.Function][]string) (stores []freshStore, ok bool) {
-	// the returned local
+	// the returned local (or, for a copy function over a slice, the freshly cloned slice value it returns)
 	var ret *ssa.Alloc
+	var retVal ssa.Value
 	for _, r := range returnsOf(fn) {
 		if len(r.Results) != 1 {
 			return nil, false
 		}
 		ld, isLoad := r.Results[0].(*ssa.UnOp)
 		if !isLoad {
+			if _, isSlice := r.Results[0].Type().Underlying().(*types.Slice); isSlice && ret == nil && (retVal == nil || retVal == r.Results[0]) {
+				retVal = r.Results[0]
+				continue
+			}
 			return nil, false
 		}
 		al, isAlloc := ld.X.(*ssa.Alloc)
@@ -661,10 +666,13 @@ func (ge *GuardEngine) copyFreshness(fn *ssa.Function, memo map[*ssa.Function][]
 		}
 		ret = al
 	}
-	if ret == nil {
+	if ret == nil && retVal == nil {
 		return nil, false
 	}
-	prefixOf := map[*ssa.Alloc]string{ret: ""}
+	prefixOf := map[*ssa.Alloc]string{}
+	if ret != nil {
+		prefixOf[ret] = ""
+	}
 	var rel func(addr ssa.Value, depth int) (string, bool)
 	rel = func(addr ssa.Value, depth int) (string, bool) {
 		if depth > 24 {
@@ -685,6 +693,9 @@ func (ge *GuardEngine) copyFreshness(fn *ssa.Function, memo map[*ssa.Function][]
 			}
 			return base + "." + st.Field(a.Field).Name(), true
 		case *ssa.IndexAddr:
+			if retVal != nil && a.X == retVal {
+				return "[*]", true
+			}
 			if _, isPtr := a.X.Type().Underlying().(*types.Pointer); isPtr {
 				base, ok := rel(a.X, depth+1)
 				return base + "[*]", ok
@@ -765,6 +776,11 @@ func (ge *GuardEngine) copyFreshness(fn *ssa.Function, memo map[*ssa.Function][]
 	// iterate to a fixed point so that pointees registered later are picked up
 	for iter := 0; iter < 4; iter++ {
 		stores = stores[:0]
+		if retVal != nil {
+			if fresh, deep, _, _ := freshKind(retVal); fresh {
+				stores = append(stores, freshStore{"", deep, ge.p.Pos(retVal.Pos())})
+			}
+		}
 		for _, b := range fn.Blocks {
 			for _, in := range b.Instrs {
 				st, isStore := in.(*ssa.Store)
